@@ -20,6 +20,9 @@ func init() { core.Register(c11{}) }
 
 func (c11) ID() string { return "C11" }
 
+// EvalFeatures names the counters of judged executions.
+func (c11) EvalFeatures() []string { return []string{"paths"} }
+
 func (c11) Cases(tier string) int {
 	if tier == "thorough" {
 		return 100000
